@@ -369,6 +369,39 @@ def rule_results_not_shared(check, rule, al=None):
                                 % (name, ', '.join(sorted(pr))), key=key, witness='%s(a, b).sources must be private' % name)
             else:
                 check.holds(rule, site_of(fi, node), '%s() hands apply_params a private provenance map' % name, key=key)
+    # every result of the public operations comes from apply_params (directly or through another operation):
+    # a shortcut that returns `sig.replace(...)` or the input itself hands out the input's own map
+    BUILDERS = (':apply_params', ':_mask', ':embed', ':mask', ':merge', ':forwards')
+    for name in ('merge', 'embed', 'mask', 'forwards', '_mask'):
+        fi = repo.func('%s:%s' % (SIG, name))
+        if fi.key not in al.paths:
+            al._run(fi)
+        it2, ps2 = al.paths[fi.key]
+        seen2 = set()
+        nret = 0
+        for p in ps2:
+            if p.status != 'return':
+                continue
+            nret += 1
+            v = p.value
+            node = [e for e in p.effects if e.kind == 'return'][-1].node
+            key = '%s|result-built-by|%s' % (fi.key, norm(node)[:80])
+            if key in seen2:
+                continue
+            seen2.add(key)
+            if v[0] == 'C' and isinstance(v[1], str) and v[1].endswith(BUILDERS):
+                check.holds(rule, site_of(fi, node), '%s() returns what %s built (private provenance map)' % (name, v[1].split(':')[-1]), key=key)
+                continue
+            pr = al.prov(fi, v[1], it2) if v[0] == 'M' and v[2] == 'replace' else al.prov(fi, v, it2)
+            if pr:
+                check.violation(rule, site_of(fi, node), '%s() returns %s on this path: %s, so the result shares the provenance map (and its '
+                                'lists) of the input %s' % (name, show(v)[:60], 'replace() keeps the receiver\'s map' if v[0] == 'M' else
+                                                          'the input object itself', ', '.join(sorted(pr))),
+                                key=key, guards=' & '.join(show_lit(l) for l in p.lits)[:200],
+                                witness='%s(sig).sources is sig.sources' % name)
+            else:
+                check.inconclusive(rule, site_of(fi, node), '%s() returns %s: not recognised as built by apply_params' % (name, show(v)[:80]), key=key)
+        check.floor(rule, 'returning paths of %s' % name, nret, 1)
     # copy_sources is deep: fresh lists per entry (C08.R5 checks the rest)
     cs = repo.func(SIG + ':copy_sources')
     it3, ps3 = al.paths.get(cs.key, (None, []))
